@@ -23,7 +23,7 @@ FOREIGN_ATTR = "zzForeignAttr"
 UNLISTED_VAL = "zzUnlistedValue"
 
 
-def one_state(a, seed, fname, unlisted=None):
+def one_state(a, seed, fname, unlisted=None, decor=None):
     from metapype.model.node import Node
     from metapype.eml.exceptions import MetapypeRuleError
     rules, dfas, elem = G["rules"], G["dfas"], G["elem"]
@@ -37,6 +37,16 @@ def one_state(a, seed, fname, unlisted=None):
             return n, out
         base = c01.parent_for(unit, el, rules)
         p.content = base.content
+        if decor == "prefix-unbound":          # the node's own prefix field and namespace map are not what attribute rules speak about
+            p.prefix = "ns0"
+        elif decor == "below-metadata":
+            holder = Node("metadata")
+            wrap = Node("zzForeignWrapper")
+            holder.add_child(wrap)
+            wrap.add_child(p)
+        elif decor == "prefix-other-namespace":
+            p.prefix = "eml"
+            p.add_namespace("eml", "eml://ecoinformatics.org/eml-2.1.1")
         for k in list(p.attributes):
             p.remove_attribute(k)
         want = {}
@@ -106,6 +116,10 @@ def w_states(items):
             n_, out_ = one_state(a, seed, fname)
             n += n_
             out += out_
+        for decor in ("prefix-unbound", "prefix-other-namespace", "below-metadata"):
+            n_, out_ = one_state(a, seed, FOREIGN_ATTR, decor=decor)
+            n += n_
+            out += [(k + ":" + decor, d_, r_) for (k, d_, r_) in out_]
         # the one unlisted value realised by values that are not strings at all (a JSON model may carry false, 0, 1, null)
         if any(v == "~unlisted" for v in a["asg"].values()):
             for typed in (False, True, 0, 1, 0.0, None, ()):
